@@ -268,22 +268,29 @@ fn enumerate(depth: usize, max_out: usize, mut f: impl FnMut(&[Op])) {
 }
 
 /// Deep backlog: three outputs; the leader runs thousands of frames ahead (the backlog's allocation
-/// grows past 4096 frames), a second output catches up part-way, the leader streams on (the ring
-/// wraps physically without growing again), the third catches up part-way, then one output -
-/// usually the slowest, while another is still behind - is dropped and everybody pulls on.
+/// grows past 4096 frames), the others catch up most of the way, the leader streams on (the live
+/// region wraps around the physical end of the allocation), one follower catches up again, then one
+/// output - usually the slowest, while another is still behind - is dropped and everybody pulls on.
 fn deep_seq(rng: &mut Rng) -> Vec<Op> {
     let mut ops = vec![Op::Send, Op::Send, Op::Send];
     let rep_n = |ops: &mut Vec<Op>, op: Op, n: usize| ops.extend(std::iter::repeat(op).take(n));
-    let lead = 2100 + rng.usize_below(4000);
-    rep_n(&mut ops, Op::Next(0), lead);
-    let c1 = rng.usize_below(lead);
-    rep_n(&mut ops, Op::Next(1), c1);
-    let more = 500 + rng.usize_below(3000);
-    rep_n(&mut ops, Op::Next(0), more);
-    let c2 = rng.usize_below(lead + more);
-    rep_n(&mut ops, Op::Next(2), c2);
-    rep_n(&mut ops, Op::Next(0), rng.usize_below(2000));
-    let slow = if c1 <= c2 { 1 } else { 2 };
+    // phase 1: the leader builds a lead of 2100 ... 4000 frames (allocation >= 4096), both
+    // followers then catch up to within a few hundred frames (the ring's head moves forward)
+    let l1 = 2100 + rng.usize_below(1900);
+    rep_n(&mut ops, Op::Next(0), l1);
+    let (f1, f2) = (l1 - rng.usize_below(600), l1 - rng.usize_below(600));
+    rep_n(&mut ops, Op::Next(1), f1);
+    rep_n(&mut ops, Op::Next(2), f2);
+    // phase 2: the leader streams on; with the head well inside the allocation the live region
+    // now wraps around its physical end (or the ring grows again - both happen)
+    let l2 = 1500 + rng.usize_below(2400);
+    rep_n(&mut ops, Op::Next(0), l2);
+    // follower 1 catches up close to the leader, follower 2 stays far behind (or part-way)
+    let g1 = (l1 + l2 - f1).saturating_sub(rng.usize_below(900));
+    rep_n(&mut ops, Op::Next(1), g1);
+    let g2 = if rng.bool() { 0 } else { rng.usize_below((l1 + l2 - f2) / 2 + 1) };
+    rep_n(&mut ops, Op::Next(2), g2);
+    let slow = if f1 + g1 <= f2 + g2 { 1 } else { 2 };
     let victim = if rng.chance(3, 4) { slow } else { rng.usize_below(3) };
     ops.push(Op::Drop(victim));
     let live: Vec<usize> = (0..3).filter(|i| *i != victim).collect();
